@@ -306,6 +306,17 @@ func init() {
 		o := RunQuery(context.Background(), p, doc)
 		return o.Class == EOK && len(o.Items) == 2 && Render(o.Items[0], false) == Render(o.Items[1], false)
 	}
+	quirkProbes["keyvalue_ids_via_variable_follow_vars_map"] = func() bool {
+		p, err, _ := ParseSafe("$x.keyvalue().id")
+		if err != nil {
+			return false
+		}
+		obj := MustDecode(`{"a":1}`, false)
+		v1, v2 := exec.Vars{"x": obj}, exec.Vars{"x": obj}
+		a := RunQuery(context.Background(), p, nil, exec.WithVars(v1))
+		b := RunQuery(context.Background(), p, nil, exec.WithVars(v2))
+		return a.Class == EOK && b.Class == EOK && !sameSeq(RenderSeq(a.Items, false), RenderSeq(b.Items, false))
+	}
 	quirkProbes["chained_keyvalue_ids_unstable"] = func() bool {
 		p, err, _ := ParseSafe("$.keyvalue().value.keyvalue()")
 		if err != nil {
@@ -465,6 +476,28 @@ var checkKeyvalue = register("c16.keyvalue", func(c KVCase) *Violation {
 		if !sameMultiset(RenderSeq(first.Items, false), RenderSeq(again.Items, false)) {
 			return violf("%q on %s: keyvalue ids are not stable over repeated executions: %v then %v", c.Path, c.Doc, RenderSeq(first.Items, false), RenderSeq(again.Items, false))
 		}
+	}
+	// ... also when the caller builds the variable map anew for every call, as exec.WithVars(exec.Vars{...})
+	// does: the inputs are the same (same path, same document, same object bound to the same name)
+	if strings.Contains(c.Path, "$x") {
+		keep := []exec.Vars{vars}
+		for i := 0; i < 3; i++ {
+			fresh := exec.Vars{"x": doc}
+			keep = append(keep, fresh) // (all alive at once, so each is an allocation of its own)
+			again := RunQuery(context.Background(), p, doc, exec.WithVars(fresh))
+			if !sameMultiset(RenderSeq(first.Items, false), RenderSeq(again.Items, false)) {
+				ev := c16Ev
+				if ev == nil {
+					ev = &Ev{Prop: "C16"}
+				}
+				if ev.quirk("keyvalue_ids_via_variable_follow_vars_map") {
+					ev.KFCase("D53")
+					break
+				}
+				return violf("%q on %s: keyvalue ids of an object reached through a variable are not stable over repeated executions when the variable map is built anew for each call: %v then %v", c.Path, c.Doc, RenderSeq(first.Items, false), RenderSeq(again.Items, false))
+			}
+		}
+		_ = keep
 	}
 	fo := RunFirst(context.Background(), p, doc, exec.WithVars(vars))
 	if fo.Class == EOK && fo.Item != nil && !contains(RenderSeq(first.Items, false), Render(fo.Item, false)) {
@@ -637,6 +670,7 @@ func TestC16(t *testing.T) {
 	c16Ev = ev
 	ev.replayTier(t)
 	_ = ev.quirk("keyvalue_id_equidistant_collision") // prints the KNOWN-FINDING line while the finding reproduces
+	_ = ev.quirk("keyvalue_ids_via_variable_follow_vars_map")
 	t.Run("grid", func(t *testing.T) {
 		b := ev.enum(t)
 		cs := methodGrid()
